@@ -817,6 +817,7 @@ def make_edit(rng, d):
     """-> (component tag, edited copy) or None.  Tags name the *documented* component."""
     e = copy.deepcopy(d)
     kind = rng.choice(["none", "ts_metadata", "ts_schema", "time_units", "L", "table_col", "table_col",
+                       "offset_shift", "offset_shift", "offset_shift",
                        "table_md", "table_schema", "prov_ts", "prov_rec", "ref_data", "ref_url", "ref_md",
                        "ref_schema", "index", "addrow", "ref_presence"])
     if kind == "none":
@@ -833,6 +834,26 @@ def make_edit(rng, d):
     if kind == "L":
         e["sequence_length"] = struct.pack("<d", struct.unpack("<d", bytes.fromhex(e["sequence_length"]))[0] * 2).hex()
         return "top", e
+    if kind == "offset_shift":
+        # same flattened data, one row boundary moved (later boundaries preferred): only the offset
+        # column differs
+        cands = []
+        for name in TABLE_ORDER:
+            t = e["tables"][name]
+            for c, _dt in TABLES[name][1]:
+                offs = t["ragged"][c][1]
+                for j in range(1, len(offs) - 1):
+                    if offs[j - 1] < offs[j] or offs[j] < offs[j + 1]:
+                        cands.append((name, c, j))
+        if not cands:
+            return None
+        late = [x for x in cands if x[2] >= (len(e["tables"][x[0]]["ragged"][x[1]][1]) + 1) // 2]
+        name, c, j = rng.choice(late or cands)
+        offs = e["tables"][name]["ragged"][c][1]
+        offs[j] = offs[j] + 1 if offs[j] < offs[j + 1] else offs[j] - 1
+        if name == "provenances":
+            return ("prov_timestamp" if c == "timestamp" else "provenance"), e
+        return ("table_metadata" if c == "metadata" else "table"), e
     if kind in ("table_col", "table_md", "table_schema", "addrow"):
         names = [n for n in TABLE_ORDER if n != "provenances"]
         rng.shuffle(names)
@@ -966,14 +987,22 @@ def clean_desc(d):
 
 class Equals(Family):
     name = "equals"
+    prelude = PRELUDE + "\nFrom TskVerif Require Import C05.Equals."
     timeout = 60.0
+    shard = 30
     workers = 8
+
+    def coq_check(self, case, obs):
+        # the model of tsk_table_collection_equals on the same two collections, all 64 option sets
+        uuid = [48] * 36
+        exp = "[" + "; ".join("true" if r[0] else "false" for r in obs["rows"]) + "]"
+        return "list_eqb Bool.eqb (equals_matrix %s %s) %s" % (coq_tc(case["a"], uuid), coq_tc(case["b"], uuid), exp)
 
     def generate(self, rng, tier):
         n = 150 if tier == "quick" else 2000
         k = 0
         while k < n:
-            d = gen_desc(rng, maxrows=3)
+            d = gen_desc(rng, maxrows=rng.choice([3, 4, 6]))
             if rng.random() < 0.5 and d["tables"]["provenances"]["n"] == 0:
                 d["tables"]["provenances"] = {"n": 1, "cols": {}, "ragged": {"timestamp": ["3230", [0, 2]], "record": ["7b7d", [0, 2]]}}
             clean = rng.random() < 0.5
@@ -1045,6 +1074,7 @@ class Equals(Family):
 
 FAMILIES = [Roundtrip, Equals]
 NOT_COVERED = [
+    "assert_equals (Python) is tied to equals by the oracle only; the dict codec (asdict/fromdict/pickle/copy) has no Coq model",
     "offset columns above 2^32 elements are exercised only in the model (Theorems offsets_narrow_widen*), not by dumping >4 GiB files",
     "zlib_compression / legacy HDF5 paths of TreeSequence.dump, the tskit CLI",
     "numpy dtype coercions inside parse_table_collection_dict beyond uint32/uint64 offsets",
